@@ -23,7 +23,8 @@
 (*    TLC stops with an error if an evaluation meets one.                  *)
 (*  - CHECKED ARITHMETIC.  Every integer product / sum is tested BEFORE it *)
 (*    is formed; if it would leave 32 bits the result is the value XOvf    *)
-(*    ("not representable"), which is absorbing.  A check that meets XOvf  *)
+(*    ("not representable"; also used for an irrational root or ratio of   *)
+(*    logarithms), which is absorbing.  A check that meets XOvf             *)
 (*    is reported as undecided by TLC (and is decided by the harness with  *)
 (*    unbounded integers on the same tree); it is never a wrong verdict.   *)
 (*                                                                         *)
@@ -148,6 +149,8 @@ XDiv0(u_, v_) ==
       [] IsFin(u_) /\ IsFin(v_) /\ ~IsRat(v_) /\ ~IsRat(u_) /\ u_.a = QZero /\ v_.a = QZero
          /\ PrimBase(u_.c) = PrimBase(v_.c) ->
             XL(QDivS(QMulS(u_.b, QI(PrimExp(u_.c))), QMulS(v_.b, QI(PrimExp(v_.c)))), QZero, QOne)
+      [] IsFin(u_) /\ IsFin(v_) /\ ~IsRat(v_) /\ ~IsRat(u_) /\ u_.a = QZero /\ v_.a = QZero
+         /\ PrimBase(u_.c) # PrimBase(v_.c) -> XOvf                                   \* irrational ratio
 XDiv(u_, v_) == IF IsOvf(u_) \/ IsOvf(v_) THEN XOvf ELSE XDiv0(u_, v_)
 RECURSIVE XPowI(_, _)
 XPowI(v_, k_) ==
@@ -166,6 +169,7 @@ XPowQ(u_, e_) ==
       [] q_ > 1 /\ IsRat(u_) /\ u_.a = QZero /\ p_ > 0 -> XQ(QZero)
       [] q_ > 1 /\ IsRat(u_) /\ u_.a = QZero /\ p_ < 0 -> XPInf
       [] q_ > 1 /\ IsRat(u_) /\ QSgn(u_.a) > 0 /\ QHasRoot(u_.a, q_) -> XPowI(XQ(QRoot(u_.a, q_)), p_)
+      [] q_ > 1 /\ IsRat(u_) /\ QSgn(u_.a) > 0 /\ ~QHasRoot(u_.a, q_) -> XOvf      \* irrational root
 XPow(u_, e_) == CASE IsOvf(e_) -> XOvf [] IsRat(e_) -> XPowQ(u_, e_.a)
 XLn(v_) == CASE IsOvf(v_) -> XOvf
              [] IsRat(v_) /\ QSgn(v_.a) > 0 -> XL(QZero, QOne, v_.a)
